@@ -75,6 +75,7 @@ struct Obj {
   bool free_row_nonbasic = false;      // at the start of the last optimize a free row (-inf,inf) was nonbasic
   // last returned basis (for reuse checks)
   std::vector<int> lastRows, lastCols;
+  std::vector<int> savedRows, savedCols; std::string savedBasisName;   // basis at the time of the last writeBasisFile
   std::unique_ptr<LogBuf> logbuf; std::unique_ptr<std::ostream> logstream;
 };
 
